@@ -26,22 +26,30 @@ type c27Key struct {
 	session uint64
 }
 
+type c27Alt struct {
+	cu       uint64
+	starts   int
+	inFlight bool
+}
+
 type c27World struct {
 	r   *simrt.Run
 	psm *ProviderSessionManager
 	// harness-side monitors (only touched while holding the scheduler token)
-	inProgress map[c27Key]int
-	lastDone   map[c27Key]uint64
-	curEpoch   uint64
-	virtEpoch  map[uint64]uint64
-	maxCU      uint64
-	consumers  []string
-	projectOf  map[string]string
-	epochSize  uint64
-	sessions   int
-	cuSpec     uint64
-	objID      map[*SingleProviderSession]int
-	expected   map[c27Key]uint64 // ledger: CU sum each session must hold between relays
+	inProgress             map[c27Key]int
+	lastDone               map[c27Key]uint64
+	curEpoch               uint64
+	virtEpoch              map[uint64]uint64
+	maxCU                  uint64
+	consumers              []string
+	projectOf              map[string]string
+	epochSize              uint64
+	sessions               int
+	cuSpec                 uint64
+	objID                  map[*SingleProviderSession]int
+	expected               map[c27Key]uint64 // ledger: CU sum each session must hold between relays
+	noRollback             map[c27Key]c27Alt // failed relay: the CU sum if lava legitimately skipped the roll-back (epoch update overtook it)
+	epochStarts, epochEnds int               // UpdateEpoch calls started / returned
 }
 
 func (w *c27World) relay(taskName string, n int) {
@@ -80,8 +88,18 @@ func (w *c27World) relay(taskName string, n int) {
 		// the session is ours now (locked): its CU sum must be what the completed and rolled-back
 		// relays of this session id left behind
 		cuBefore := atomic.LoadUint64(&sess.CuSum)
-		if exp, seen := w.expected[key]; seen {
+		r.Logf("%s relay c=%s e=%d s=%d n=%d: session acquired (CuSum=%d, relays in progress in it: %d)", taskName, consumer, epoch, sid, relayNum, cuBefore, w.inProgress[key])
+		if exp, seen := w.expected[key]; seen && w.inProgress[key] == 0 {
 			r.OracleEvals++
+			if alt, ok := w.noRollback[key]; ok && cuBefore != exp && cuBefore == alt.cu && (alt.inFlight || w.epochStarts > alt.starts) {
+				// the failed relay was NOT rolled back because an epoch update overtook the failure
+				// handling (OnSessionFailure re-checks the epoch's validity itself and then only unlocks):
+				// legitimate, the session is about to be dropped with its epoch
+				r.Probe("failure_not_rolled_back_epoch_update_overtook")
+				exp = alt.cu
+				w.expected[key] = alt.cu
+			}
+			delete(w.noRollback, key)
 			if cuBefore != exp {
 				r.SetViolation("session-cu-sum-wrong", "at-acquire", fmt.Sprintf("session (epoch %d, project %s, id %d) has CuSum=%d when acquired, but its accepted relays minus full roll-backs of failed ones give %d", epoch, project, sid, cuBefore, exp))
 				return
@@ -157,8 +175,12 @@ func (w *c27World) relay(taskName string, n int) {
 		case outcome == 2:
 			w.inProgress[key]--
 			// a relay that fails while its epoch is still valid is rolled back in full
+			starts0, inFlight0 := w.epochStarts, w.epochStarts != w.epochEnds
 			if w.psm.IsValidEpoch(epoch) {
 				w.expected[key] = afterAccept - cuToAdd
+				// lava checks the validity again inside OnSessionFailure: if an epoch update gets in
+				// between (or is in flight), the relay is legitimately not rolled back
+				w.noRollback[key] = c27Alt{cu: afterAccept, starts: starts0, inFlight: inFlight0}
 			} else {
 				delete(w.expected, key) // the epoch's sessions are being dropped
 			}
@@ -204,7 +226,9 @@ func (w *c27World) epochTask(n int) {
 			continue
 		}
 		w.curEpoch += w.epochSize
+		w.epochStarts++
 		w.psm.UpdateEpoch(w.curEpoch)
+		w.epochEnds++
 		r.Fault("epoch_update_in_flight")
 		r.Logf("epoch-task: UpdateEpoch(%d) blocked<=%d", w.curEpoch, w.psm.GetBlockedEpochHeight())
 	}
@@ -241,6 +265,9 @@ func (w *c27World) checkAccounting() {
 				sum += pswc.Sessions[id].CuSum
 				if exp, ok := w.expected[c27Key{e, p, id}]; ok {
 					r.OracleEvals++
+					if alt, ok := w.noRollback[c27Key{e, p, id}]; ok && pswc.Sessions[id].CuSum == alt.cu && (alt.inFlight || w.epochStarts > alt.starts) {
+						exp = alt.cu // see at-acquire: roll-back legitimately skipped
+					}
 					if pswc.Sessions[id].CuSum != exp {
 						r.SetViolation("session-cu-sum-wrong", "quiescent", fmt.Sprintf("session (epoch %d, project %s, id %d) ends with CuSum=%d, but its accepted relays minus full roll-backs of failed ones give %d", e, p, id, pswc.Sessions[id].CuSum, exp))
 						return
@@ -260,7 +287,7 @@ func (w *c27World) checkAccounting() {
 
 func runC27(r *simrt.Run) {
 	inBubble(r, func(s *simrt.Sched) {
-		w := &c27World{r: r, inProgress: map[c27Key]int{}, lastDone: map[c27Key]uint64{}, virtEpoch: map[uint64]uint64{}, projectOf: map[string]string{}, objID: map[*SingleProviderSession]int{}, expected: map[c27Key]uint64{}}
+		w := &c27World{r: r, inProgress: map[c27Key]int{}, lastDone: map[c27Key]uint64{}, virtEpoch: map[uint64]uint64{}, projectOf: map[string]string{}, objID: map[*SingleProviderSession]int{}, expected: map[c27Key]uint64{}, noRollback: map[c27Key]c27Alt{}}
 		w.epochSize = 10
 		w.curEpoch = 100
 		w.maxCU = uint64(20 * (1 + r.Draw("cfg", 30)))
